@@ -275,6 +275,11 @@ for _data, _one in ((b"import os\r\nvalue = 1", "value = 1"), (b"import os\rvalu
                                    "steps": [["read"], ["external", _t.encode("latin-1").hex()],
                                              ["write", cps(_t + "z = 3\n")], ["external", _data.hex()],
                                              ["dosame", cps(_t + "y = 2\n")], ["undo"]]})
+    # the open finding: collapse, close/reopen, undo (and the same within one session, which must restore)
+    FIXED_SESSIONS.append({"data": _data, "py": True, "soa": False, "ropefolder": True,
+                           "steps": [["write", cps(_one)], ["reopen"], ["undo"]]})
+    FIXED_SESSIONS.append({"data": _data, "py": False, "soa": False, "ropefolder": True,
+                           "steps": [["dosame", cps(_one)], ["read"], ["undo"], ["redo"], ["read"], ["undo"]]})
     # edit, undo, close/reopen, redo, undo (history reloaded with old_contents)
     FIXED_SESSIONS.append({"data": _data, "py": True, "soa": True, "ropefolder": True,
                            "steps": [["write", cps(_t + "z = 3\n")], ["undo"], ["reopen"], ["redo"], ["undo"], ["read"]]})
@@ -365,11 +370,10 @@ def evaluate(ctx, sessions, all_obs):
 
 # --------------------------------------------------------------------------------------------- findings
 def collapse_then_restore(sess, obs, k):
-    """Shape of the open finding C16-oneline-resets-newlines together with its predicted failure: step k is an undo or
-    redo, the file it starts from has no line break at all (an earlier edit collapsed it), the bytes to restore use
-    CRLF or CR, and what rope wrote is exactly those bytes with every line end turned into LF.  (File.newlines was
-    reset to LF by a read of the one-line file through the same object: automatic_soa observer, File.read,
-    File.write; or it is None after reopening and is detected from the one-line file.)"""
+    """Shape of the open finding C16-oneline-reopen-loses-newlines together with its predicted failure: step k is an
+    undo or redo of a change that was last used BEFORE the project was closed and reopened (so the reloaded change
+    holds a File object that never read the file), the file it starts from has no line break at all, the bytes to
+    restore use CRLF or CR, and what rope wrote is exactly those bytes with every line end turned into LF."""
     if sess["steps"][k][0] not in ("undo", "redo"):
         return False
     disks = [sess["data"]] + [o["disk"] for o in obs]
@@ -377,19 +381,24 @@ def collapse_then_restore(sess, obs, k):
     if b"\r" in before or b"\n" in before:
         return False                                   # the file restored from must have no line break
     undo, redo, disk = [], [], sess["data"]
-    for st, o in list(zip(sess["steps"], obs))[:k]:
+    for idx, (st, o) in enumerate(list(zip(sess["steps"], obs))[:k]):
         if st[0] in ("write", "dofresh", "dosame") and o["code"] == 0:
-            undo.append((disk, o["disk"]))
+            undo.append([disk, o["disk"], idx])
             redo = []
         elif st[0] == "undo" and o["code"] == 0 and undo:
             redo.append(undo.pop())
+            redo[-1][2] = idx
         elif st[0] == "redo" and o["code"] == 0 and redo:
             undo.append(redo.pop())
+            undo[-1][2] = idx
         disk = o["disk"]
     src = undo if sess["steps"][k][0] == "undo" else redo
     if not src:
         return False
     want = src[-1][0] if sess["steps"][k][0] == "undo" else src[-1][1]
+    last_use = src[-1][2]
+    if not any(st[0] == "reopen" for st in sess["steps"][last_use + 1:k]):
+        return False                                   # same session: the change's File object remembers (fe48e43)
     if b"\r" not in want:
         return False
     predicted = want.replace(b"\r\n", b"\n").replace(b"\r", b"\n")
@@ -406,7 +415,7 @@ def replay_obj(sess, obs, k, fail, model_agrees):
 
 def signature(obj):
     if obj.get("shape_collapse_then_restore") and obj.get("model_agrees"):
-        return "session:file left without line break, undo/redo restores the old text with LF line ends"
+        return "session:file left without line break, project reopened, undo/redo restores the old text with LF line ends"
     return "session:other"
 
 
